@@ -34,10 +34,14 @@ RelRef(fromDir, toDir, name, shape) ==
        [] shape = "dot"    -> <<".">> \o rel
        [] shape = "updown" -> <<"..", Last(fromDir)>> \o rel
        [] shape = "dotdot" -> Ups(Len(fromDir) - c) \o <<".">> \o From(toDir, c + 1) \o <<name>>
+       \* an absolute path, a file: URL: the marker segment "/" says "from the super-root"
+       [] shape \in {"abs", "url"} -> <<"/">> \o toDir \o <<name>>
 ShapeOK(fromDir, shape) == shape = "updown" => Len(fromDir) >= 2
 
 (* a relative reference is joined with the directory of the resource that contains it *)
-ResolveRef(containerDir, ref) == NormSegs(containerDir \o ref)
+(* (an absolute reference replaces the container's directory altogether)   *)
+ResolveRef(containerDir, ref) == IF ref # <<>> /\ ref[1] = "/" THEN NormSegs(Tail(ref))
+                                 ELSE NormSegs(containerDir \o ref)
 
 CONSTANTS Dirs,      \* directories of the tree (segment sequences below the super-root)
           Cwds,      \* working directories (in the tree or outside)
